@@ -139,6 +139,7 @@ class GenB:
         self.queries = []        # (op id, kind) for repeats
         self.have_si = "kilo" in self.model.prefix_names
         self.pairs = []
+        self.shipped_tokens = set()
         self.decl_count = {}
         self.first_decl = {}
         self.used_as_expr = set()
@@ -157,6 +158,34 @@ class GenB:
                 return n
 
     # ----------------------------------------------------------- system
+    # shipped units whose declared sizes are inconsistent or unreachable on the pinned tree
+    # (C09 known findings): conversions through them are not judged against a single size
+    SHIPPED_EXCLUDED = {"ton of refrigeration", "boiler horsepower", "donkeypower", "one"}
+
+    def plan_shipped(self):
+        """Shipped mode: the system is the boot's shipped units (sizes solved from the
+        traced declarations), plus a few synthetic units declared against them."""
+        rng = self.rng
+        sized = set(self.snap.get("shipped_sized") or [])
+        scales = set(self.snap.get("scale_units") or [])
+        for t, d in sorted(self.model.base_dim.items()):
+            if t not in sized or t in scales or t in self.SHIPPED_EXCLUDED:
+                continue
+            if d and d[0] != 0:
+                continue
+            self.unit_ref[t] = ["u", t]
+            self.by_dim.setdefault(d, []).append(t)
+            self.shipped_tokens.add(t)
+        dims = [d for d, ts in self.by_dim.items() if d and len(ts) >= 1]
+        units = []
+        for _ in range(rng.choice([0, 1, 2, 3])):
+            d = rng.choice(sorted(dims))
+            units.append((self.fresh(), d, rng.choice(NICE) * rng.choice([1, 1, 10, Fraction(1, 100)])))
+        self.unit_plan = units
+        for t, d, s in units:
+            self.sizes[t] = s
+        self.funds = []
+
     def plan_system(self):
         rng = self.rng
         nf_ = rng.choice([2, 2, 3, 3, 4])
@@ -182,6 +211,8 @@ class GenB:
         if not isinstance(v, Fraction):
             return None
         for t, e in nf[1]:
+            if t not in self.sizes:
+                self.sizes[t] = Fraction(self.snap["shipped_sizes"][t])
             v *= self.sizes[t] ** e
         return v
 
@@ -508,7 +539,7 @@ class GenB:
         pure powers of units that may be several equivalence hops apart, first at a
         low power and then at a higher one."""
         rng = self.rng
-        dims = [d for d, ts in self.by_dim.items() if len(ts) >= 2 and M.d_degree(d) == 1]
+        dims = [d for d, ts in self.by_dim.items() if len(ts) >= 2 and M.d_degree(d) == 1 and max(d) == 1]
         if not dims:
             return self.g_query()
         d = rng.choice(sorted(dims))
@@ -516,6 +547,8 @@ class GenB:
         powers = rng.choice([[1, 2], [1, 3], [1, 2, 3], [2, 1], [1, -2], [-1, -3], [2, 3]])
         for k in powers:
             src, dst = ((), ((a, k),)), ((), ((b, k),))
+            if pair_class(self.model, src, dst):
+                continue
             sref, dref = self.unit_expr(src), self.unit_expr(dst)
             mspec, _ = self.magnitude()
             q = self.emit({"op": "q_new", "m": mspec, "u": sref, "how": "mul"})
@@ -607,7 +640,14 @@ class GenB:
     def generate(self):
         rng = self.rng
         self.query_kinds = self.QUERY_KINDS.get(self.prop, self.QUERY_KINDS["C08"])
-        self.plan_system()
+        if self.params.get("shipped") and self.snap.get("shipped_sized"):
+            self.plan_shipped()
+            # units already declared by the shipped modules count as declared
+            for t in self.shipped_tokens:
+                self.decl_count[t] = 2
+                self.used_as_expr.add(t)
+        else:
+            self.plan_system()
         # the planned definitions and declarations, in seeded order
         defs = list(self.unit_plan)
         rng.shuffle(defs)
